@@ -1060,6 +1060,24 @@ class Unit:
         while ref['kind'] in ('ImplicitCastExpr', 'ParenExpr'): ref = self.kids(ref)[0]
         return ref
 
+    def body_throws(self, cid):
+        """does the body of unit function `cid` contain a throw statement outside any try block (direct throws only)"""
+        memo = getattr(self, '_throws_memo', None)
+        if memo is None: memo = self._throws_memo = {}
+        if cid in memo: return memo[cid]
+        def scan(n, in_try):
+            if not isinstance(n, dict): return False
+            k = n.get('kind')
+            if k == 'CXXThrowExpr' and not in_try: return True
+            if k == 'LambdaExpr': return False
+            if k == 'CXXTryStmt':
+                inner = n.get('inner', [])
+                return any(scan(c, True) for c in inner[:1]) or any(scan(c, in_try) for c in inner[1:])
+            return any(scan(c, in_try) for c in n.get('inner', []) if isinstance(c, dict))
+        fn = self.defn.get(cid) if isinstance(self.defn, dict) else self.by_id.get(cid)
+        memo[cid] = bool(fn) and scan(fn, False)
+        return memo[cid]
+
     def e_CallExpr(self, n):
         ks = self.kids(n); ref = self.callee_decl(ks[0])
         if ref['kind'] == 'DeclRefExpr' and ref['referencedDecl']['kind'] in FUNC_KINDS:
@@ -1075,6 +1093,7 @@ class Unit:
                 self.need_func(cid)
                 a = self.call_args(rd['type']['qualType'], ks[1:], callee=cid)
                 call = '%s(%s)' % (alt or fcn, ', '.join(a))
+                if cid in self.defn and self.body_throws(cid): self.stmt_may_throw = True      # a unit function with a throw statement: the caller's statement is abandoned when it throws
                 return self.deref_if_ref_return(rd['type']['qualType'], call)
             if self.models:
                 r = self.models.free_call(self, name, rd, ks[1:], n)
